@@ -4,7 +4,7 @@ seed=$1; prop=$2; tier=${3:-quick}
 cd /verif
 if [ -n "$(git -C /repo status --porcelain)" ]; then echo "/repo not clean"; exit 9; fi
 git -C /repo apply /verif/seeded/$seed/patch.diff || { echo "apply failed"; exit 9; }
-trap 'git -C /repo checkout -- . ' EXIT
+trap 'git -C /repo checkout -- . ; git -C /verif checkout -q -- evidence/'$prop'.json 2>/dev/null' EXIT
 out=$(./check $prop --tier $tier 2>&1); rc=$?
 echo "$out" | grep -E "^(VIOLATION|UNDECIDED|KNOWN|CHECKER|\[)" | cut -c1-400 | head -8
 echo "== $seed on $prop: exit=$rc"
